@@ -106,6 +106,12 @@ func genOp(r *simrt.Rand, keys int, next *int) Op {
 // Generate implements core.Harness.
 func (H) Generate(r *simrt.Rand, tier string) any {
 	s := &Scenario{Keys: 1 + r.Intn(4)}
+	big := r.Intn(8) == 0
+	if big {
+		// sizes are a knob too: thresholds such as "misses >= len(dirty)" or any
+		// size-dependent fast path only move with more than a handful of keys
+		s.Keys = 5 + r.Intn(12)
+	}
 	next := 0
 	val := func() int { next++; return next }
 	single := r.Intn(8) == 0
@@ -134,6 +140,9 @@ func (H) Generate(r *simrt.Rand, tier string) any {
 		}
 	default:
 		n := r.Intn(13)
+		if big {
+			n = s.Keys + r.Intn(2*s.Keys)
+		}
 		if single {
 			n = 0
 		}
